@@ -73,15 +73,89 @@ func faultSweep() []*Spec {
 	return out
 }
 
+// startRetryLeg (C15): Start fails at its k-th connection operation (k = 2: the init write,
+// k = 3: the read of the acknowledgement), the application calls Start AGAIN.  "Start ...
+// leave[s] no ... open connection behind" and "connection_init first, then, only after an
+// acknowledgement, subscribe frames": the retry is a new conversation on a new connection --
+// it dials again, writes connection_init and reads the acknowledgement before it reports success.
+func startRetryLeg(res *core.Result) {
+	for _, k := range []int{2, 3} {
+		func() {
+			s := NewSched(k, false, nil)
+			defer s.Detach()
+			id := fmt.Sprintf("start-retry-fault%d", k)
+			res.Count(id, true)
+			res.Dist("start-retry")
+			c1 := s.CallStart("start")
+			s.Step("start") // dial
+			s.Step("start") // write connection_init (fails for k = 2)
+			if k == 3 {
+				s.ServerSend([]byte(`{"type":"connection_ack"}`))
+				s.Step("start") // the read fails
+			}
+			s.quiesce(settle)
+			if !c1.Done || c1.Err == "" {
+				return // the fault did not make Start fail: judged by the every-k sweep, not here
+			}
+			s.mu.Lock()
+			dialedBefore, framesBefore := s.Dialed, len(s.Frames)
+			s.mu.Unlock()
+			c2 := s.CallStart("start2")
+			s.Step("start2") // dial
+			s.Step("start2") // write connection_init
+			s.ServerSend([]byte(`{"type":"connection_ack"}`))
+			s.Step("start2") // read the acknowledgement
+			s.quiesce(settle)
+			s.mu.Lock()
+			dialed := s.Dialed
+			var newFrames []Frame
+			if len(s.Frames) > framesBefore {
+				newFrames = append(newFrames, s.Frames[framesBefore:]...)
+			}
+			s.mu.Unlock()
+			rp := map[string]interface{}{"start_retry_fault_k": k}
+			if c2.Panic != "" {
+				res.Fail(core.Failure{Case: id, Class: "C15/start-retry-panic", What: "the second Start panicked: " + c2.Panic, Replay: rp})
+				return
+			}
+			if !c2.Done {
+				res.Fail(core.Failure{Case: id, Class: "C15/start-retry-stuck", What: "the second Start did not return although dial, init write and acknowledgement were all served", Replay: rp})
+				return
+			}
+			if c2.Err != "" {
+				return // refusing a retry is not against the property
+			}
+			if dialed != dialedBefore+1 {
+				res.Fail(core.Failure{Case: id, Class: "C15/start-retry-on-dead-connection",
+					What: fmt.Sprintf("Start failed at connection operation %d (the connection was closed), a second Start reported success without dialling again (%d dial(s) in all): everything that follows is written to the dead connection, without connection_init and acknowledgement", k, dialed), Replay: rp})
+				return
+			}
+			if len(newFrames) == 0 || newFrames[0].Type != "connection_init" {
+				res.Fail(core.Failure{Case: id, Class: "C15/start-retry-without-init",
+					What: fmt.Sprintf("the second Start reported success without writing connection_init first on the new connection (frames: %v)", newFrames), Replay: rp})
+			}
+		}()
+	}
+}
+
 // RunFor explores schedules and reports the findings of one property.
 func RunFor(prop string) func(tier string, seed int64, outDir string, replay string) (*core.Result, error) {
 	return func(tier string, seed int64, outDir string, replay string) (*core.Result, error) {
 		res := core.NewResult(prop, tier, seed)
-		res.Rule = "schedules of the real WebSocket client under a deterministic controller (yield hooks + scripted connection + paused forwarder): fixed corpus of known-bad interleavings, an every-k connection-fault sweep (with and without writes failing after the close frame, and with a connection that is dead from its k-th operation on), and random schedules (<=3 subscriptions, <=8 server frames incl. next/complete/error/malformed/unknown id, one Unsubscribe per id, one Close, connection loss, receives, thread steps at lock/lookup/send granularity) followed by a drain (all writes complete; helpful application); non-trivial = Start was attempted; distinct by action list + fault plan"
+		res.Rule = "schedules of the real WebSocket client under a deterministic controller (yield hooks + scripted connection + paused forwarder): fixed corpus of known-bad interleavings, an every-k connection-fault sweep (with and without writes failing after the close frame, and with a connection that is dead from its k-th operation on), a Start that is retried after a failed handshake (C15), and random schedules (<=3 subscriptions, <=8 server frames incl. next/complete/error/malformed/unknown id, one Unsubscribe per id, one Close, connection loss, receives, thread steps at lock/lookup/send granularity) followed by a drain (all writes complete; helpful application); non-trivial = Start was attempted; distinct by action list + fault plan"
 		if replay != "" {
 			data, err := os.ReadFile(replay)
 			if err != nil {
 				return nil, err
+			}
+			var leg struct {
+				Replay struct {
+					K int `json:"start_retry_fault_k"`
+				} `json:"replay"`
+			}
+			if json.Unmarshal(data, &leg) == nil && leg.Replay.K > 0 {
+				startRetryLeg(res)
+				return res, nil
 			}
 			var wrap struct {
 				Replay Spec `json:"replay"`
@@ -99,6 +173,9 @@ func RunFor(prop string) func(tier string, seed int64, outDir string, replay str
 			}
 			res.Count(wrap.Replay.ID, true)
 			return res, nil
+		}
+		if prop == "C15" {
+			startRetryLeg(res)
 		}
 		n := 400
 		if tier == "thorough" {
